@@ -382,17 +382,18 @@ func (w *Writer) flushBlock() error {
 		FirstKey:    firstKey,
 	})
 
+	// Update offset for next block
+	w.dataOffset += uint64(n)
+
 	// Finalize the current bloom filter for this block
 	if w.bloomFilterEnabled && w.currentBloomFilter != nil {
 		// Store the bloom filter for this block
 		w.bloomFilters = append(w.bloomFilters, w.currentBloomFilter)
 
-		// Create a new bloom filter for the next block
+		// Create a new bloom filter for the next block, which starts at the
+		// offset just advanced past this block
 		w.currentBloomFilter = NewBlockBloomFilterBuilder(w.dataOffset, DefaultWriterOptions().ExpectedEntriesPerBlock)
 	}
-
-	// Update offset for next block
-	w.dataOffset += uint64(n)
 
 	// Reset the block builder for next block
 	w.blockManager.Reset()
